@@ -39,9 +39,9 @@ Definition op_lsh : opfn := fun _ args _ =>
    and fold negative arguments into neg_acc, the others into pos_acc; cost += 264; check_cost.
    Old model, at the end: pos_acc = op(pos_acc, neg_acc). *)
 Fixpoint binop_loop (new_cost_model : bool) (op_f : Z -> Z -> Z) (args : sexp) (cost : N)
-    (pos_acc neg_acc : Z) (max_cost : N) : res (N * Z * Z) :=
+    (pos_acc neg_acc : Z) (max_cost : N) : res (N * (Z * Z)) :=
   match args with
-  | Atom _ => Ok (cost, pos_acc, neg_acc)
+  | Atom _ => Ok (cost, (pos_acc, neg_acc))
   | Cons arg rest =>
       match arg with
       | Cons _ _ => bad_arg
@@ -61,7 +61,7 @@ Fixpoint binop_loop (new_cost_model : bool) (op_f : Z -> Z -> Z) (args : sexp) (
 
 Definition binop_reduction (initial_value : Z) (op_f : Z -> Z -> Z) : opfn := fun f args max_cost =>
   let new_cost_model := f_new_cost_model f in
-  do '(cost, pos_acc, neg_acc) <-
+  do '(cost, (pos_acc, neg_acc)) <-
     binop_loop new_cost_model op_f args LOG_BASE_COST initial_value initial_value max_cost;
   let pos_acc := if new_cost_model then pos_acc else op_f pos_acc neg_acc in
   Ok (malloc_cost cost (bytes_of_int pos_acc)).
